@@ -22,6 +22,7 @@ The opening of the standalone stream (connectStandaloneSSE; model `ClientWrite.o
   oscn mr=<MaxRetries field> fails=<n> ans=st<code>[e]      obs ok      (e: under Content-Type text/event-stream)
   open                                                      obs gets=<GETs made>
   probe                                                     obs ok | err
+  oclose                                                    obs <returned|blocked> leak=<none|leak>
 
 `posts`, `end`, `probe` are compared with the model (`ClientWrite.run`); the C01 monitor (`ClientWrite.monitor`, typed,
 proved in Props.lean) judges the implementation's observation at `probe`, when the observation is complete.
@@ -153,6 +154,14 @@ def engine : Engine DState where
       match r with
       | some s => ({ oscn := some s }, { model := "ok" })
       | none => ({}, { model := "bad-scn" })
+    | ["oclose"] =>
+      -- Close with no call pending, while the standalone stream (if any) is being read: it returns, nothing remains
+      match d.oscn with
+      | none => (d, { model := "bad-op" })
+      | some _ =>
+        let v := if impl.startsWith "blocked" then some "C01: Close did not return although no call was pending (the standalone stream was being read or had been declined)"
+                 else if impl != "returned leak=none" then some (CClause.text .leak) else none
+        (d, { model := "returned leak=none", violated := v })
     | ["open"] =>
       match d.oscn with
       | none => (d, { model := "bad-op" })
